@@ -115,8 +115,8 @@ def check_project(ctx, files, fmt, dist, origin):
                 chk.tie_break("correspondence:format_source", "format o (parse s) of the model differs from the real parse + format for %s" % name,
                               dict(replay, model=None if not sm.get("formatted") else S(sm["formatted"]), impl=f["formatted"]))
             elif sm.get("shaped") is not True:
-                # the decidable hypothesis of C12_source_chars_partial (spec/FormatSource.v: parser_shaped) on this parse
-                chk.tie_break("hypothesis:parser_shaped", "the parse of %s does not have the shapes C12_source_chars_partial assumes" % name,
+                # C12_parser_shaped (proved over the parser model) evaluated by the extracted model on this parse: must be true
+                chk.tie_break("theorem:parser_shaped", "the extracted parser_shaped is false on the parse of %s although C12_parser_shaped proves it" % name,
                               dict(replay, shaped=sm.get("shaped")))
             dist["format_source_cases"] = dist.get("format_source_cases", 0) + 1
             # oracle on the implementation for the same statement: blanks, line breaks and ASCII case aside, same characters
